@@ -53,21 +53,21 @@ def rangeBody : Stmt → List Stmt
 def outerBody : List Stmt := rangeBody (signature_VerifyAuthenticity.body.getD 2 (.opaque ""))
 def innerBody : List Stmt := rangeBody (outerBody.getD 0 (.opaque ""))
 
-def store0 (si : Val) (ts : List TCert) : Store := [[("trustedCerts", .list (ts.map tcV)), ("signerInfo", si)]]
+def store0 (si : Val) (ts : List TCert) : Store := [[("v1", .list (ts.map tcV)), ("v0", si)]]
 
 theorem innerLoop (fn : String) (cal) (si : Val) (ts0 : List TCert) (c : TCert) : ∀ (ts : List TCert) (i : Nat),
-    rangeLoop (fun st => execBlock ⟨fn, prims, cal⟩ st innerBody) "_" "trust" i (ts.map tcV)
-        ([("cert", tcV c)] :: store0 si ts0)
+    rangeLoop (fun st => execBlock ⟨fn, prims, cal⟩ st innerBody) "_" "v3" i (ts.map tcV)
+        ([("v2", tcV c)] :: store0 si ts0)
       = match firstEqual c ts with
         | some t => .ret [tcV t, .nil]
-        | none => .next ([("cert", tcV c)] :: store0 si ts0) := by
+        | none => .next ([("v2", tcV c)] :: store0 si ts0) := by
   intro ts
   induction ts with
   | nil => intro i; simp [rangeLoop, firstEqual]
   | cons t r ih =>
     intro i
-    have step : (fun st => execBlock ⟨fn, prims, cal⟩ st innerBody) ([("trust", tcV t)] :: [("cert", tcV c)] :: store0 si ts0)
-        = if t.raw = c.raw then .ret [tcV t, .nil] else .next ([("trust", tcV t)] :: [("cert", tcV c)] :: store0 si ts0) := by
+    have step : (fun st => execBlock ⟨fn, prims, cal⟩ st innerBody) ([("v3", tcV t)] :: [("v2", tcV c)] :: store0 si ts0)
+        = if t.raw = c.raw then .ret [tcV t, .nil] else .next ([("v3", tcV t)] :: [("v2", tcV c)] :: store0 si ts0) := by
       by_cases h : t.raw = c.raw <;>
         simp [innerBody, outerBody, rangeBody, signature_VerifyAuthenticity, store0,
           execBlock, exec, eval, evalArgs, sbindAll, sbind, sdefine, fset, sget, fget, spop, h]
@@ -82,7 +82,7 @@ theorem innerLoop (fn : String) (cal) (si : Val) (ts0 : List TCert) (c : TCert) 
       simp [step, ih']
 
 theorem outerLoop (fn : String) (cal) (si : Val) (ts : List TCert) : ∀ (cs : List TCert) (i : Nat),
-    rangeLoop (fun st => execBlock ⟨fn, prims, cal⟩ st outerBody) "_" "cert" i (cs.map tcV) (store0 si ts)
+    rangeLoop (fun st => execBlock ⟨fn, prims, cal⟩ st outerBody) "_" "v2" i (cs.map tcV) (store0 si ts)
       = match firstTrusted ts cs with
         | some t => .ret [tcV t, .nil]
         | none => .next (store0 si ts) := by
@@ -92,10 +92,10 @@ theorem outerLoop (fn : String) (cal) (si : Val) (ts : List TCert) : ∀ (cs : L
   | cons c r ih =>
     intro i
     have inner := innerLoop fn cal si ts c ts 0
-    have step : (fun st => execBlock ⟨fn, prims, cal⟩ st outerBody) ([("cert", tcV c)] :: store0 si ts)
+    have step : (fun st => execBlock ⟨fn, prims, cal⟩ st outerBody) ([("v2", tcV c)] :: store0 si ts)
         = match firstEqual c ts with
           | some t => .ret [tcV t, .nil]
-          | none => .next ([("cert", tcV c)] :: store0 si ts) := by
+          | none => .next ([("v2", tcV c)] :: store0 si ts) := by
       simp only [innerBody, outerBody, rangeBody, signature_VerifyAuthenticity, List.getD_cons_succ, List.getD_cons_zero] at inner ⊢
       simp [execBlock, exec, eval, evalArgs, sbindAll, sbind, sdefine, fset, sget, fget, spop, builtin, store0] at inner ⊢
       rw [inner]
